@@ -882,6 +882,16 @@ impl TypeChecker {
                     .collect::<TypeResult<Vec<_>>>()?;
 
                 let mut ret = None;
+                for (span, branch_ret, _) in tys.iter() {
+                    // TODO(ed): These are bad errors, they're easy to confuse. A better
+                    // formulation?
+                    ret = self
+                        .unify_option(**span, ctx, *branch_ret, ret)
+                        .help_no_span(
+                            "The return from this block doesn't match the earlier branches"
+                                .into(),
+                        )?;
+                }
                 let value = if branches
                     .last()
                     .map(|branch| branch.condition.is_some())
@@ -892,15 +902,7 @@ impl TypeChecker {
                     Some(void)
                 } else {
                     let mut value = None;
-                    for (span, branch_ret, branch_value) in tys.iter() {
-                        // TODO(ed): These are bad errors, they're easy to confuse. A better
-                        // formulation?
-                        ret = self
-                            .unify_option(**span, ctx, *branch_ret, ret)
-                            .help_no_span(
-                                "The return from this block doesn't match the earlier branches"
-                                    .into(),
-                            )?;
+                    for (span, _, branch_value) in tys.iter() {
                         value = self
                             .unify_option(**span, ctx, *branch_value, value)
                             .help_no_span(
